@@ -1177,6 +1177,8 @@ castexpr(struct scope *s)
 		}
 		expect(TRPAREN, "after type name");
 		if (tok.kind == TLBRACE) {
+			if (t->kind == TYPEFUNC)
+				error(&tok.loc, "compound literal has function type");
 			e = mkexpr(EXPRCOMPOUND, t, NULL);
 			e->toeval = toeval;
 			e->qual = tq;
